@@ -153,6 +153,8 @@ def failure_sites_full_stack(r):
 def extras(r):
     receive_failure_real_dispatchers(r)      # real threads: before any deterministic scheduler is installed
     failure_sites_full_stack(r)
+    # a connection that dies under a write of the default (asyncore) dispatcher: nobody blocks, the end is reported (sendpath.py)
+    sendpath.asyncore_flush_race(r, random.Random(core.seed() + 121), 45 if r.tier == "thorough" else 24)
     keepalive_callback_failure(r)
     redundant_disconnect(r)
     key_request_failure(r)
